@@ -1,4 +1,5 @@
 import CrabProofs.Lemmas.FunctorVPartInst
+import CrabProofs.Lemmas.FunctorUfRefl
 
 /-!
 # C04 — inclusion test and lattice operations vs. concretisation, functor part 2:
@@ -11,9 +12,7 @@ Reflexivity of `<=` needs separated intervals, which `update_partitions()` does 
 (`C04.vpart_leq_refl_counterexample`, same scenario and replay line as the meet defect of
 `Props/C03Functors2.lean`).
 -/
-namespace Crab
-namespace Dom
-namespace Fct
+open Crab Crab.Dom Crab.Dom.Fct
 
 variable {V S : Type} [DecidableEq V] {D : VDom V S}
 
@@ -176,6 +175,63 @@ example : VP.γ (VP.join (VP.join s0 s1) s2) 0 :=
 
 end C04VPartEx
 
-end Fct
-end Dom
-end Crab
+/-! # `uf_domain`
+
+`operator<=` after repo commit 7d37137 (the loop runs over the variables the RIGHT operand tracks,
+the left operand gets a fresh term for a variable it does not track). -/
+section uf
+open Uf
+variable {V F : Type} [DecidableEq V] [DecidableEq F] (I : F → List Int → Int)
+
+/-- a yes of `operator<=` is an inclusion, for every interpretation of the symbols -/
+theorem C04.uf_leq_sound {a b : UF V F} (ha : a.WF) (h : UF.leq a b = true) (s : St V) :
+    UF.γ I a s → UF.γ I b s := leq_sound I ha h s
+
+/-- reflexive (no variable is tracked twice: `m_var_map` is a `flat_map`) -/
+theorem C04.uf_leq_refl (a : UF V F) (hn : match a with | .bot => True | .val u => KeysNodup u.map) :
+    UF.leq a a = true := leq_refl a hn
+
+theorem C04.uf_bot_le (b : UF V F) : UF.leq (UF.bottom : UF V F) b = true := rfl
+
+theorem C04.uf_le_top (a : UF V F) : UF.leq a (UF.top : UF V F) = true := by
+  match a with
+  | .bot => rfl
+  | .val u => rfl
+
+/-- `|` (= `||`) is an upper bound -/
+theorem C04.uf_join_upper {a b : UF V F} (hb : b.WF) (s : St V) :
+    (UF.γ I a s → UF.γ I (UF.join a b) s) ∧ (UF.γ I b s → UF.γ I (UF.join a b) s) :=
+  ⟨fun h => join_sound I hb s (Or.inl h), fun h => join_sound I hb s (Or.inr h)⟩
+
+/-- `&` (= `&&`) contains the intersection -/
+theorem C04.uf_meet_sound {choose : List (Term F) → Option (Term F)} (hch : ChooseOK choose) {a b : UF V F}
+    (ha : a.WF) (s : St V) : UF.γ I a s → UF.γ I b s → UF.γ I (UF.meet choose a b) s := meet_sound I hch ha s
+
+theorem C04.uf_is_bottom_sound {a : UF V F} (h : UF.isBottom a = true) (s : St V) : ¬ UF.γ I a s :=
+  not_γ_of_isBottom I h s
+
+theorem C04.uf_is_top_sound {a : UF V F} (h : UF.isTop a = true) (s : St V) : UF.γ I a s :=
+  γ_of_isTop I h s
+
+/-- `&` is not below its operands: the pseudo-meet rebuilds every shared variable from its class
+    and a class without TERM_APP member becomes a fresh term variable, so constants are lost -/
+def C04.uf_meet_lower_Statement : Prop :=
+  ∀ (I : Nat → List Int → Int) (choose : List (Term Nat) → Option (Term Nat)), ChooseOK choose →
+    ∀ (a b : UF Nat Nat) (s : St Nat), a.WF → b.WF → UF.γ I (UF.meet choose a b) s → UF.γ I a s
+
+/-- `{v0 -> 5} & {v0 -> 5} = {v0 -> $VAR_0}` (printed so by the real code) contains `v0 = 6` -/
+theorem C04.uf_meet_lower_counterexample : ¬ C04.uf_meet_lower_Statement := by
+  intro h
+  let a : UF Nat Nat := UF.assign 0 (.const 5) UF.top
+  have ha : a.WF := assign_wf 0 _ wf_top
+  have h1 := h (fun _ _ => 0) List.head? (fun l t ht => List.mem_of_mem_head? ht) a a (fun _ => 6) ha ha
+    ⟨fun _ => 6, by
+      intro p hp
+      have : p = (0, Term.var 0) := by revert hp; decide +revert
+      rw [this]; rfl⟩
+  obtain ⟨ρ, hm⟩ := h1
+  have := hm (0, .const 5) (by decide)
+  simp [Term.eval] at this
+
+end uf
+
